@@ -29,6 +29,7 @@ const (
 	oSize
 	oIter
 	oRemoved2 // Removed(a, b): one call, two keys
+	oIterLate // Iterator() whose result is held and drained only after every thread has finished
 )
 
 type opSpec struct {
@@ -37,8 +38,8 @@ type opSpec struct {
 }
 
 func (o opSpec) String() string {
-	n := []string{"Get", "Updated", "Removed", "UpdatedWith(inc)", "UpdatedWith(del)", "ComputeIfAbsent", "ComputeIf(<5)", "Size", "Iterator", "Removed(a,b)"}[o.kind]
-	if o.kind == oSize || o.kind == oIter || o.kind == oRemoved2 {
+	n := []string{"Get", "Updated", "Removed", "UpdatedWith(inc)", "UpdatedWith(del)", "ComputeIfAbsent", "ComputeIf(<5)", "Size", "Iterator", "Removed(a,b)", "Iterator(held)"}[o.kind]
+	if o.kind == oSize || o.kind == oIter || o.kind == oRemoved2 || o.kind == oIterLate {
 		return n
 	}
 	return n + "(" + o.key + ")"
@@ -46,7 +47,7 @@ func (o opSpec) String() string {
 
 var alphabet = []opSpec{
 	{oGet, "a"}, {oUpdated, "a"}, {oRemoved, "a"}, {oInc, "a"}, {oDel, "a"}, {oCIA, "a"}, {oCI, "a"},
-	{oUpdated, "b"}, {oRemoved, "b"}, {oCIA, "b"}, {oSize, ""}, {oIter, ""}, {oRemoved2, ""},
+	{oUpdated, "b"}, {oRemoved, "b"}, {oCIA, "b"}, {oSize, ""}, {oIter, ""}, {oRemoved2, ""}, {oIterLate, ""},
 }
 
 // event is one completed (or pending) operation of the history.
@@ -57,6 +58,7 @@ type event struct {
 	call, ret   int // logical timestamps; ret = -1 while pending
 	res         string
 	panicked    any
+	held        *fp.Iterator[fp.Tuple2[string, int]] // oIterLate: the iterator returned by the call
 }
 
 type spec map[string]int
@@ -113,7 +115,7 @@ func (s spec) apply(e *event) string {
 		return fmt.Sprint(e.arg)
 	case oSize:
 		return fmt.Sprint(len(s))
-	case oIter:
+	case oIter, oIterLate:
 		return s.dump()
 	case oRemoved2:
 		delete(s, "a")
@@ -202,6 +204,19 @@ func scenario(init string, threads [][]opSpec) func(x *mc.X) {
 		if x.Interacted() {
 			x.NonTrivial()
 		}
+		// an Iterator is a snapshot taken during the call that returned it: whenever it is drained,
+		// it must show the content of an instant inside that call's interval
+		for _, e := range evs {
+			if e.held != nil {
+				e := e
+				x.NoPoints(func() {
+					p := mc.Catch(func() { e.res = drain(*e.held) })
+					if e.panicked == nil {
+						e.panicked = p
+					}
+				})
+			}
+		}
 		var hist []string
 		for _, e := range evs {
 			hist = append(hist, fmt.Sprintf("t%d.%s[%d,%d]->%s", e.thread, e.op, e.call, e.ret, e.res))
@@ -267,8 +282,11 @@ func scenario(init string, threads [][]opSpec) func(x *mc.X) {
 }
 
 func snapshot(m *mutable.CopyOnWriteMap[string, int]) string {
+	return drain(m.Iterator())
+}
+
+func drain(it fp.Iterator[fp.Tuple2[string, int]]) string {
 	s := spec{}
-	it := m.Iterator()
 	for it.HasNext() {
 		t := it.Next()
 		s[t.I1] = t.I2
@@ -314,6 +332,9 @@ func run(x *mc.X, m *mutable.CopyOnWriteMap[string, int], e *event) string {
 		return snapshot(m)
 	case oRemoved2:
 		m.Removed("a", "b")
+	case oIterLate:
+		it := m.Iterator()
+		e.held = &it
 	}
 	return ""
 }
